@@ -222,7 +222,9 @@ def _wash(obs, case):
     elif bad == "arm":
         a["arm"] = 2 if hi else -1
     elif bad in ("waste_vol", "cleaner_vol"):
-        a[bad] = 100.5 if hi else -0.1
+        # also values that only just leave the range (they must not be rounded back into it)
+        k = (a["waste_delay"] + a["airgap"]) % 3
+        a[bad] = (100.5, 100.04, 100.001)[k] if hi else (-0.1, -0.04, -0.001)[k]
     elif bad in ("waste_delay", "cleaner_delay"):
         a[bad] = 1001 if hi else -1
     elif bad == "airgap":
